@@ -95,6 +95,8 @@ pub struct St {
     frozen_class: Option<String>,
     /// substreams temporarily owned by a half-close task (still held)
     in_flight_holds: std::sync::Arc<std::sync::atomic::AtomicUsize>,
+    /// ("X"|"Y", outbound substream id) -> number of L's connection tasks that had ended when the request was accepted
+    ended_at_request: BTreeMap<(&'static str, usize), usize>,
 }
 
 fn spawn_drain<S: futures::Stream + Unpin + Send + 'static>(w: &mut World, node: usize, name: &str, mut s: S)
@@ -174,6 +176,7 @@ impl Scenario for ConnScenario {
             timeline: Vec::new(),
             frozen_class: None,
             in_flight_holds: Default::default(),
+            ended_at_request: BTreeMap::new(),
         }
     }
 
@@ -272,9 +275,13 @@ impl Scenario for ConnScenario {
 
     fn monitor(&self, st: &mut St, w: &World) -> Vec<Viol> {
         // timestamp newly observed events
+        let ended_now = if self.real_tcp { 0 } else { w.nodes[st.l].script.0.lock().ended.len() };
         let xl = st.x.log.lock();
         for e in xl[st.x_seen..].iter() {
             st.timeline.push((st.now, format!("X:{}", short(e))));
+            if let Seen::OpenSubstreamResult { result: Ok(id), .. } = e {
+                st.ended_at_request.insert(("X", *id), ended_now);
+            }
             match e {
                 Seen::Established { .. } => st.established_at.push(st.now),
                 Seen::Closed { .. } => st.closed_at.push(st.now),
@@ -286,6 +293,9 @@ impl Scenario for ConnScenario {
         let yl = st.y.log.lock();
         for e in yl[st.y_seen..].iter() {
             st.timeline.push((st.now, format!("Y:{}", short(e))));
+            if let Seen::OpenSubstreamResult { result: Ok(id), .. } = e {
+                st.ended_at_request.insert(("Y", *id), ended_now);
+            }
         }
         st.y_seen = yl.len();
         drop(yl);
@@ -406,7 +416,17 @@ impl Scenario for ConnScenario {
                     if answers > 1 {
                         v.push(Viol::new("c08/substream-answered-twice", format!("protocol {name}: outbound substream {id} answered {answers} times")));
                     }
-                    if answers == 0 && !closed_after {
+                    // "exactly once unless its connection terminates first": the protocol is only told when the LAST
+                    // connection to the peer ends. Ground truth from SimNet: if one of L's connection tasks ended after
+                    // the request was accepted, the request may have been on that connection (a primary that closes
+                    // while a secondary keeps the peer connected takes its pending opens with it, silently)
+                    let ended_final = if self.real_tcp { usize::MAX } else { w.nodes[st.l].script.0.lock().ended.len() };
+                    let key = (if name == "X" { "X" } else { "Y" }, id);
+                    let a_connection_ended_since = st.ended_at_request.get(&key).map(|n| ended_final > *n).unwrap_or(false);
+                    if answers == 0 && !closed_after && a_connection_ended_since {
+                        UNANSWERED_ON_SILENTLY_CLOSED_PRIMARY.fetch_add(1, std::sync::atomic::Ordering::Relaxed);
+                    }
+                    if answers == 0 && !closed_after && !a_connection_ended_since {
                         v.push(Viol::new("c08/substream-never-answered", format!("protocol {name}: outbound substream {id} got neither SubstreamOpened nor SubstreamOpenFailure and the connection did not close; log {:?}", shorts(log))));
                     }
                 }
@@ -617,6 +637,10 @@ fn short_app(e: &NodeLog) -> String {
     }
 }
 
+/// observation (C08): open requests left unanswered because their (primary) connection ended while another connection
+/// kept the peer connected — permitted by the statement, invisible to the protocol
+pub static UNANSWERED_ON_SILENTLY_CLOSED_PRIMARY: std::sync::atomic::AtomicU64 = std::sync::atomic::AtomicU64::new(0);
+
 fn sc(filter: &str, keep_alive: u32, with_ping: bool, tail: u32, program: Vec<COp>) -> ConnScenario {
     ConnScenario { program, keep_alive, with_ping, tail_ticks: tail, filter: filter.into(), real_tcp: false }
 }
@@ -713,6 +737,11 @@ pub fn scenarios(filter: &str, thorough: bool) -> Vec<ConnScenario> {
             v.push(sc("c09", t, false, tail, vec![Connect, ConnectBack]));
             v.push(sc("c09", t, false, tail, vec![Connect, ConnectBack, Wait(2), OpenX, DropSubX(0)]));
             v.push(sc("c09", 8, false, 24, vec![Connect, Wait(6), OpenX, Wait(4), DropSubX(0)]));
+            // a connection that outlived its timeout only because of a long-lived substream (the protocol's handle is
+            // downgraded), then inbound keep-alive activity, then the long-lived substream goes: T counts from the
+            // inbound activity
+            v.push(sc("c09", t, false, tail, vec![Connect, OpenX, Wait(5), RemoteOpenX, DropSubX(1), Wait(1), DropSubX(0)]));
+            v.push(sc("c09", t, false, tail, vec![Connect, OpenX, Wait(5), OpenY, DropSubY(0), Wait(1), DropSubX(0)]));
             // "or is being opened": a substream whose opening is slow keeps the connection past the idle timeout; it
             // either opens late (released at t=6 > T) or fails by the 5 s open timeout, after which the connection goes
             v.push(sc("c09", t, false, tail, vec![Connect, Wait(3), HoldOpens(true), OpenX, Wait(3), HoldOpens(false), Wait(2), DropSubX(0)]));
@@ -1001,6 +1030,12 @@ pub fn run_filtered(ctx: &mut Ctx, filter: &'static str) {
         ctx.assume("E4 (real loopback TCP, Noise, yamux, TcpConnection): socket readiness order is decided by the kernel; the explorer settles I/O (driver turns + 2 ms pauses) before it treats the system as idle; virtual clock with auto-advance inhibited");
     }
     ctx.cov("deviation_bound", bound as u64);
+    if filter == "c08" {
+        ctx.cov(
+            "observation_open_requests_unanswered_because_their_primary_connection_ended_while_a_secondary_stayed",
+            UNANSWERED_ON_SILENTLY_CLOSED_PRIMARY.load(std::sync::atomic::Ordering::Relaxed),
+        );
+    }
     ctx.cov(
         "rule",
         "for every connection-lifecycle program (connect, overlapping second connection, substream opens by either side, link cut, remote crash, \
